@@ -1,5 +1,5 @@
 #!/usr/bin/env python3
-"""Apply every kept seeded patch to /repo in turn, run the property's quick check, undo the patch.
+"""Apply every kept seeded patch to a scratch copy of /repo's committed package in turn (8 at a time) and run the property's quick check against it.
 Writes seeded/now.json (which rules report which seed today) and, with --readme, regenerates the table in seeded/README.md."""
 import json
 import subprocess
@@ -9,31 +9,46 @@ from pathlib import Path
 VERIF = Path(__file__).resolve().parent.parent
 bad = 0
 now = {}
-assert subprocess.run("git -C /repo status --porcelain", shell=True, capture_output=True, text=True).stdout.strip() == "", "/repo not clean"
-for d in sorted((VERIF / "seeded").glob("C*_*")):
+import shutil
+import tempfile
+from concurrent.futures import ThreadPoolExecutor
+
+
+def one(d):
+    """The patch on a scratch copy of /repo's committed package (outside /repo and /verif, removed afterwards); the property's quick
+    check(s) against it."""
     meta = json.load(open(d / "meta.json"))
     checks = list(meta["checks"]) if isinstance(meta.get("checks"), dict) else [meta["property"]]
-    subprocess.run(f"git -C /repo apply {d / 'patch.diff'}", shell=True, check=True)
+    tmp = Path(tempfile.mkdtemp(prefix="cg_seed_"))
     try:
-        hit = []
+        subprocess.run(f"git -C /repo archive HEAD circuitgraph | tar -x -C {tmp}", shell=True, check=True)
+        subprocess.run(["git", "apply", str(d / "patch.diff")], cwd=tmp, check=True)
+        hit, res = [], {"exit": {}, "rules": []}
         for c in checks:
-            p = subprocess.run(f"./check {c} --no-evidence --evidence-dir /tmp/seed_ev", shell=True, cwd=VERIF, capture_output=True, text=True)
+            p = subprocess.run(f"./check {c} --repo {tmp} --no-evidence --evidence-dir {tmp}/ev", shell=True, cwd=VERIF, capture_output=True, text=True)
             if p.returncode == 1 and "VIOLATION" in p.stdout:
                 hit.append(c)
-            rules = sorted({l.split("violated ")[1].split(" at ")[0] for l in p.stdout.splitlines() if " violated " in l})
-            now.setdefault(meta["id"], {"exit": {}, "rules": []})
-            now[meta["id"]]["exit"][c] = p.returncode
-            now[meta["id"]]["rules"] += rules
+            res["exit"][c] = p.returncode
+            res["rules"] += sorted({l.split("violated ")[1].split(" at ")[0] for l in p.stdout.splitlines() if " violated " in l})
+        return meta, hit, res
     finally:
-        subprocess.run("git -C /repo checkout -- . && git -C /repo clean -fdq circuitgraph", shell=True, check=True)
-        subprocess.run("rm -rf /tmp/seed_ev", shell=True)
-    if meta.get("expected") == "silent":
-        # a seed that a later repair of the repository made harmless (see meta.json): the checks must now stay silent on it
-        print(f"{meta['id']}: {'SILENT as expected (obsolete after ' + meta.get('obsolete_after_fix', '?') + ')' if not hit else 'REPORTED although the change no longer breaks the property'}")
-        bad += 1 if hit else 0
-        continue
-    print(f"{meta['id']}: {'reported by ' + ','.join(hit) if hit else 'NOT REPORTED'}")
-    bad += 0 if hit else 1
+        shutil.rmtree(tmp, ignore_errors=True)
+
+
+only = [a for a in sys.argv[1:] if not a.startswith("--")]
+dirs = [d for d in sorted((VERIF / "seeded").glob("C*_*")) if not only or d.name in only]
+with ThreadPoolExecutor(int(__import__("os").environ.get("SEEDED_RUN_JOBS", "8"))) as ex:
+    for meta, hit, res in ex.map(one, dirs):
+        now[meta["id"]] = res
+        if meta.get("expected") == "silent":
+            # a seed that a later repair of the repository made harmless (see meta.json): the checks must now stay silent on it
+            print(f"{meta['id']}: {'SILENT as expected (obsolete after ' + meta.get('obsolete_after_fix', '?') + ')' if not hit else 'REPORTED although the change no longer breaks the property'}", flush=True)
+            bad += 1 if hit else 0
+            continue
+        print(f"{meta['id']}: {'reported by ' + ','.join(hit) if hit else 'NOT REPORTED'}", flush=True)
+        bad += 0 if hit else 1
+if only:
+    sys.exit(1 if bad else 0)
 (VERIF / "seeded" / "now.json").write_text(json.dumps(now, indent=1, sort_keys=True) + "\n")
 if "--readme" in sys.argv:
     readme = VERIF / "seeded" / "README.md"
